@@ -218,6 +218,9 @@ impl Accept {
                         self.paused = false;
 
                         sockets.iter_mut().for_each(|info| {
+                            // Every socket is registered again from here on. A back-off deadline
+                            // left on it would make the next pause skip its deregistration.
+                            info.timeout = None;
                             self.register_logged(info);
                         });
 
